@@ -352,6 +352,14 @@ fn main() -> anyhow::Result<()> {
                         token(st["tv"].as_u64().unwrap_or(1), &tokv));
                     run.out.emit(&json!({"ev": "poke", "op": st}));
                 }
+                "poke_bad" => {
+                    // an orphan mirror entry the canonical store will refuse when a drain tries to repair it: wrong dimension
+                    let mut payload = run.fam.input(1);
+                    payload.push(0.25);
+                    let tok = token(1, &payload);
+                    run.eng.hot_tier().insert_with_coherence(id, payload, meta_of(&json!({"k1": 0, "k2": 0})), tok);
+                    run.out.emit(&json!({"ev": "poke", "op": st}));
+                }
                 other => run.out.emit(&json!({"ev": "unknown", "t": other})),
             }
             run.sizes(after_insert);
